@@ -297,6 +297,18 @@ def inject(rnd, doc, kind, special=None):
             return None
         doc.insert(rnd.choice(cand), {'id': 'ZZZ', 'els': [['1']], 'node': None})
         return 'unknown_outside:' + where
+    if kind == 'set_overload':
+        # one set collecting as many DISTINCT set-level codes as the reader and the maps allow: repeated control number (23),
+        # SE02 differing from ST02 (3) and too short (7), SE01 not numeric (6) and not the count (4), a body error (5)
+        for (a, b), (c, d) in zip(sets, sets[1:]):
+            if ids[a] == 'ST' and ids[c] == 'ST' and ids[d] == 'SE' and not any(x in ids[b:c] for x in ('GS', 'GE')):
+                v = getv(doc[a], 1, None)
+                putv(doc[c], 1, None, v)
+                putv(doc[d], 1, None, '02')
+                putv(doc[d], 0, None, 'X')
+                doc.insert(d, {'id': 'ZZZ', 'els': [['1']], 'node': None})
+                return 'set_overload'
+        return None
     if kind == 'dup_st':
         for (a, b), (c, d) in zip(sets, sets[1:]):
             if ids[a] == 'ST' and ids[c] == 'ST' and not any(x in ids[b:c] for x in ('GS', 'GE')):
@@ -446,9 +458,16 @@ def gen_case(seed, c, special_mode=False):
     one_map = rnd.random() < 0.7
     epool = [rnd.choice(pool)] if one_map else pool
     senders_differ = len(shape) > 1 and rnd.random() < 0.25
+    overload = (c % 17 == 3)
+    if overload:
+        shape = [[rnd.randint(2, 3)]] if len(shape) == 1 else [[2], [rnd.randint(1, 2)]]
     doc = compose(rnd, epool, shape, rnd.choice([0.0, 0.2, 0.5]), rnd.choice([1, 2]), senders_differ)
     nf = rnd.choice([0, 0, 1, 1, 1, 2, 2, 3])
     faults = []
+    if overload:
+        d = inject(rnd, doc, 'set_overload')
+        if d:
+            faults.append(d)
     for _ in range(nf):
         kind = rnd.choice(FAULTS)
         d = inject(rnd, doc, kind)
